@@ -941,7 +941,9 @@ func c19AcctUpdateValues(fn *ast.FuncDecl) (string, error) {
 	for _, s := range outer.Body.List {
 		switch x := s.(type) {
 		case *ast.AssignStmt:
-			if len(x.Lhs) == 2 && len(x.Rhs) == 1 {
+			// `dps, ok := c.dataPredecessors[target]` (followed by the empty-map default) or the plain lookup
+			// `dps := c.dataPredecessors[target]`: the map is only read, and a lookup in a nil map finds nothing
+			if (len(x.Lhs) == 2 || len(x.Lhs) == 1) && len(x.Rhs) == 1 {
 				if ix, ok := x.Rhs[0].(*ast.IndexExpr); ok && c19Squash(types.ExprString(ix)) == "c.dataPredecessors["+target.Name+"]" {
 					if id, ok := x.Lhs[0].(*ast.Ident); ok {
 						dps = id.Name
@@ -958,6 +960,14 @@ func c19AcctUpdateValues(fn *ast.FuncDecl) (string, error) {
 					if c19CalleeName(call.Fun) == "reportValues" && len(call.Args) == 1 && c19Squash(types.ExprString(call.Args[0])) == nmap && nmap != "" {
 						report = true
 					}
+				}
+			}
+		case *ast.IfStmt:
+			// if err := toChannel.reportValues(nFromMap); err != nil { return ... }
+			if ia, ok := x.Init.(*ast.AssignStmt); ok && len(ia.Lhs) == 1 && len(ia.Rhs) == 1 && x.Else == nil {
+				if call, ok := ia.Rhs[0].(*ast.CallExpr); ok && c19CalleeName(call.Fun) == "reportValues" && len(call.Args) == 1 &&
+					c19Squash(types.ExprString(call.Args[0])) == nmap && nmap != "" {
+					report = true
 				}
 			}
 		case *ast.RangeStmt:
@@ -1038,6 +1048,20 @@ func c19AcctUpdateValues(fn *ast.FuncDecl) (string, error) {
 			if ok && errv != nil && c19Squash(types.ExprString(as.Lhs[0])) == nmap+"["+from.Name+"]" && c19CalleeName(call.Fun) == "handle" && len(call.Args) == 4 &&
 				c19Squash(types.ExprString(call.Args[0])) == from.Name && c19Squash(types.ExprString(call.Args[1])) == target.Name &&
 				c19Squash(types.ExprString(call.Args[2])) == value.Name && len(l) == 2 && c19IsErrReturn(l[1], errv.Name) {
+				return "ua_keep " + c19Gv(from.Name) + " " + c19Gv(value.Name) + " acc", nil
+			}
+		}
+		// keep, through a local: h, err := c.edgeHandlerManager.handle(from, target, value, c.isStream) ; if err != nil { return } ; nFromMap[from] = h
+		if as, ok := l[0].(*ast.AssignStmt); ok && len(l) == 3 && len(as.Lhs) == 2 && len(as.Rhs) == 1 {
+			call, ok := as.Rhs[0].(*ast.CallExpr)
+			hv, _ := as.Lhs[0].(*ast.Ident)
+			errv, _ := as.Lhs[1].(*ast.Ident)
+			st, _ := l[2].(*ast.AssignStmt)
+			if ok && hv != nil && errv != nil && hv.Name != "_" && c19CalleeName(call.Fun) == "handle" && len(call.Args) == 4 &&
+				c19Squash(types.ExprString(call.Args[0])) == from.Name && c19Squash(types.ExprString(call.Args[1])) == target.Name &&
+				c19Squash(types.ExprString(call.Args[2])) == value.Name && c19IsErrReturn(l[1], errv.Name) &&
+				st != nil && st.Tok == token.ASSIGN && len(st.Lhs) == 1 && len(st.Rhs) == 1 &&
+				c19Squash(types.ExprString(st.Lhs[0])) == nmap+"["+from.Name+"]" && c19Squash(types.ExprString(st.Rhs[0])) == hv.Name {
 				return "ua_keep " + c19Gv(from.Name) + " " + c19Gv(value.Name) + " acc", nil
 			}
 		}
